@@ -476,6 +476,8 @@ def c11(F: Facts):
     fin = F.final
     raised = {}  # me -> kind ('raise' | 'excobj')
     own_cancel = set()
+    with_timeouts = bool(F.sc.get('timeouts'))
+    touched = c10_facts(F)['touched'] if with_timeouts else set()
     for r in F.tr:
         if r['k'] == 'exit' and r['how'] == 'raise':
             raised[(r['bus'], r['ev'], r['h'])] = 'raise'
@@ -490,6 +492,13 @@ def c11(F: Facts):
                 me = (bus, ev, hi)
                 n = len(F.enters.get(me, []))
                 rows = [r for r in s['results'] if r['h'] == f'h{hi}' and r['bus'] == bus]
+                if with_timeouts:
+                    # handlers cut off by a timeout, and handlers of an event whose processing an awaiting ancestor's timeout
+                    # interrupted, are C10's subject; everything that raised on its own is still judged below
+                    if any(F.tr[x]['how'] == 'cancelled' for x in F.exits.get(me, [])):
+                        continue
+                    if n == 0 and ev in touched and rows and rows[0]['st'] == 'error':
+                        continue
                 if n != 1:
                     v.append(('C11.b', f'event {ev} on {bus}: handler h{hi} ran {n} times (raising handlers on this event: {[m for m in raised if m[1] == ev]})'))
                     continue
@@ -521,6 +530,8 @@ def c11(F: Facts):
         if r['k'] == 'a-acc':
             rows = r['rows']
             errs = [x for x in rows if x['err'] is not None]
+            if with_timeouts and r['out'] == 'raise' and r['exc'] == 'TimeoutError' and r.get('errkey') is None:
+                continue  # the accessor's own wait ran into the event timeout: not an error recorded by a handler
             if r['ria'] and errs:
                 first = errs[0]
                 if r['out'] != 'raise':
